@@ -174,16 +174,76 @@ let pshow (o : pop) (b : pobs) (p : pdb) : string =
   | PoOpen, _ -> "open" ^ l
   | _, _ -> "?" ^ l
 
+(* metadata calls made by the reader of a restore / as operations of their own (Db/RestoreMeta.v):
+     restorec <reader script as for restorer> <ncb> { <at> <call> }...      call <call>
+     call := s | t <mode> ok <hex> | t <mode> err | v | st | dp *)
+let parse_mcall () : mcall =
+  match next () with
+  | "s" -> MSnapId
+  | "t" ->
+      let m = parse_mode (next ()) in
+      (match next () with
+       | "ok" -> MTimeline (m, Some (bytes_of_hex (next ())))
+       | _ -> MTimeline (m, None))
+  | "v" -> MView
+  | "st" -> MStats
+  | "dp" -> MDefaultPath
+  | s -> failwith ("bad call " ^ s)
+
+let parse_mop () : mop =
+  match next () with
+  | "restorec" ->
+      decr pos; !toks.(!pos) <- "restorer";
+      (match parse_xop () with
+       | XRestoreReader (k, len, sc) ->
+           let n = next_int () in
+           let rec go i acc =
+             if i = 0 then List.rev acc
+             else let at = nat_of_int (next_int ()) in let c = parse_mcall () in go (i - 1) ((at, c) :: acc) in
+           MRestoreReader (k, len, sc, go n [])
+       | _ -> failwith "bad restorec")
+  | "call" -> MCall (parse_mcall ())
+  | _ -> decr pos; MP (parse_pop ())
+
+let show_mobs (c : mcall) (o : mobs) : string =
+  match o with
+  | MoSnapId None -> "s:nil"
+  | MoSnapId (Some id) -> "s:" ^ hex_of_bytes id
+  | MoTimeline (None, called) -> Printf.sprintf "t:err:%d" (if called then 1 else 0)
+  | MoTimeline (Some id, called) -> Printf.sprintf "t:%s:%d" (hex_of_bytes id) (if called then 1 else 0)
+  | MoView seen -> Printf.sprintf "v:%d:%08x" (List.length seen) (fnv32 (dump seen))
+  | MoUnit -> (match c with MStats -> "st:1" | _ -> "dp:1")
+
+(* the calls that were made: those placed within what the reader hands out, in order *)
+let made (o : mop) : mcall list =
+  match o with
+  | MRestoreReader (_, len, sc, cbs) -> due sc len cbs
+  | _ -> []
+
+let mshow (o : mop) (b : mxobs) (p : pdb) : string =
+  let l = " L[" ^ dump p.px.base.live ^ "]" in
+  match b, o with
+  | MoP pb, MP po -> pshow po pb p
+  | MoCall ob, MCall c -> show_mobs c ob ^ l
+  | MoRestore (_, XoNoFile), _ -> "nofile" ^ l
+  | MoRestore (os, xb), MRestoreReader (k, len, sc, _) ->
+      let body = show (XRestoreReader (k, len, sc)) xb p.px in
+      (* the calls go between the restore's own observation and the live content *)
+      let cut = String.length body - String.length l in
+      let c = if os = [] then "-" else String.concat "," (List.map2 show_mobs (made o) os) in
+      String.sub body 0 cut ^ " C[" ^ c ^ "]" ^ l
+  | _, _ -> "?" ^ l
+
 let () =
   iter_lines (fun line ->
     match split_ws line with
     | "H" :: rest ->
         toks := Array.of_list rest; pos := 0;
         let n = next_int () in
-        let rec go k acc = if k = 0 then List.rev acc else let o = parse_pop () in go (k - 1) (o :: acc) in
+        let rec go k acc = if k = 0 then List.rev acc else let o = parse_mop () in go (k - 1) (o :: acc) in
         let ops = go n [] in
-        let res = prun_obs caps empty_pdb ops in
-        print_endline ("H " ^ String.concat " | " (List.map2 (fun o (b, x) -> pshow o b x) ops res))
+        let res = mrun_obs caps empty_pdb ops in
+        print_endline ("H " ^ String.concat " | " (List.map2 (fun o (b, x) -> mshow o b x) ops res))
     | "R" :: _ -> print_endline "R ok"
     | [] -> ()
     | _ -> print_endline "?")
